@@ -1,4 +1,5 @@
 import OdxVerif.Proofs.FieldTierItem
+import OdxVerif.Proofs.ItemLoop
 /-! Field tier, DYNAMIC-LENGTH-FIELD: an unsigned/signed integer count object at (`countBytePos`, `countBitPos`) relative
     to the field's first byte, the items (tier-2 structures, each with its own value tree, each consuming ≥ 1 byte) one
     after the other from `offset` on (`DynamicLengthField.encode_into_pdu` / `decode_from_pdu`; model: `encodeItems`,
@@ -88,8 +89,13 @@ theorem encodeItems_eq (shape : List Tree) (eop : Bool) : ∀ (ks : List (List T
       obtain ⟨s1, hrun1, hc1, hcb1⟩ := encodeDop_struct_trees k hok hn f (by omega) { s with isEndOfPdu := eop } hcb
       rw [hshape] at hrun1
       refine ⟨s1, ?_, ?_, hcb1⟩
-      · simp only [itemVals, List.map_cons, List.map_nil, encodeItems, bind, run_bind, run_modifyS]
-        exact hrun1
+      · simp only [itemVals, List.map_cons, List.map_nil]
+        -- the item occupies `Trees.size k ≥ 1` bytes: the cursor check of the repaired encoder passes
+        refine encodeItems_one_ok _ eop f _ s s1 true hrun1 ?_
+        have := hc1.2.2.2.1
+        rw [structPair_enc_cursor] at this
+        simp only [] at this
+        omega
       · have h0 : SameCore { s with isEndOfPdu := eop } s := ⟨rfl, rfl, rfl, rfl, rfl⟩
         exact hc1.trans (hgk.core _ _ h0)
     | cons k2 rest =>
@@ -102,7 +108,11 @@ theorem encodeItems_eq (shape : List Tree) (eop : Bool) : ∀ (ks : List (List T
       refine ⟨s3, ?_, ?_, hcb3⟩
       · have hrun3' : encodeItems (.struct none (Trees.toParams shape)) eop f
             (PVal.dict (Trees.pair k2).val :: itemVals rest) s1 true = .ok ((), s3) := hrun3
-        simp only [itemVals, List.map_cons, encodeItems, bind, run_bind, hrun1]
+        simp only [itemVals, List.map_cons]
+        rw [encodeItems_cons_ok _ eop f _ _ _ s s1 true hrun1 (by
+          have := hc1.2.2.2.1
+          rw [structPair_enc_cursor] at this
+          omega)]
         exact hrun3'
       · show SameCore s3 ((Pair.list ((k2 :: rest).map dynItem)).enc ((structPair k).enc s))
         exact hc3.trans (hg.core _ _ hc1)
